@@ -288,3 +288,136 @@ TWINS["C06_twin_local_cache"] = ("C06", [(A, """        if hasattr(obj.dtype, "t
             # JAX, numpy
             dtype = obj.dtype.type.__name__""")])
 TWINS["C06_twin_new_thread_local"] = ("C06", [(S, "_treeflatten_storage = threading.local()", "_treeflatten_storage = threading.local()\n_extra_storage = threading.local()\n\n\ndef _touch_extra():\n    _extra_storage.value = 1\n")])
+
+# ------------------------------------------------------------------------- C12
+FLAT_REGION = """        was_flattening = get_treeflatten_memo()
+        set_treeflatten_memo()
+        try:
+            leaves, structure = jtu.tree_flatten(obj, is_leaf=is_flatten_leaftype)
+        finally:
+            if not was_flattening:
+                clear_treeflatten_memo()
+"""
+SEEDS["C12_flatten_flag_leak_on_baseexception"] = ("C12", [(P, FLAT_REGION, """        was_flattening = get_treeflatten_memo()
+        set_treeflatten_memo()
+        try:
+            leaves, structure = jtu.tree_flatten(obj, is_leaf=is_flatten_leaftype)
+        except Exception:
+            if not was_flattening:
+                clear_treeflatten_memo()
+            raise
+        if not was_flattening:
+            clear_treeflatten_memo()
+""")], "C12.1")
+SEEDS["C12_flatten_flag_constant_reset"] = ("C12", [(P, FLAT_REGION, """        set_treeflatten_memo()
+        try:
+            leaves, structure = jtu.tree_flatten(obj, is_leaf=is_flatten_leaftype)
+        finally:
+            clear_treeflatten_memo()
+""")], "C12.1")
+SEEDS["C12_flatten_flag_never_cleared_on_error"] = ("C12", [(P, FLAT_REGION, """        was_flattening = get_treeflatten_memo()
+        set_treeflatten_memo()
+        leaves, structure = jtu.tree_flatten(obj, is_leaf=is_flatten_leaftype)
+        if not was_flattening:
+            clear_treeflatten_memo()
+""")], "C12.1")
+SEEDS["C12_flatten_restore_inverted"] = ("C12", [(P, """            if not was_flattening:
+                clear_treeflatten_memo()
+""", """            if was_flattening:
+                clear_treeflatten_memo()
+""")], "C12.1")
+LABEL_REGION = """                set_treepath_memo(leaf_index, cls.structure)
+                try:
+                    if not is_check_leaftype(leaf):
+                        return False
+                finally:
+                    clear_treepath_memo()
+"""
+SEEDS["C12_label_cleared_only_on_normal_path"] = ("C12", [(P, LABEL_REGION, """                set_treepath_memo(leaf_index, cls.structure)
+                if not is_check_leaftype(leaf):
+                    clear_treepath_memo()
+                    return False
+                clear_treepath_memo()
+""")], "C12.1")
+SEEDS["C12_label_leak_on_false"] = ("C12", [(P, LABEL_REGION, """                set_treepath_memo(leaf_index, cls.structure)
+                try:
+                    ok = is_check_leaftype(leaf)
+                except BaseException:
+                    clear_treepath_memo()
+                    raise
+                if not ok:
+                    return False
+                clear_treepath_memo()
+""")], "C12.1")
+SEEDS["C12_structureless_clears_label"] = ("C12", [(P, """                if not is_check_leaftype(leaf):
+                    return False
+            else:""", """                if not is_check_leaftype(leaf):
+                    clear_treepath_memo()
+                    return False
+            else:""")], "C12.1")
+SEEDS["C12_annotation_mutated_at_check"] = ("C12", [(A, """        if cls.index_variadic is None:
+            if len(obj.shape) != len(cls.dims):""", """        if cls.index_variadic is None:
+            cls.dims = tuple(cls.dims)
+            if len(obj.shape) != len(cls.dims):""")], "C12.3")
+SEEDS["C12_setattr_transparent_elsewhere"] = ("C12", [(D, """                    if inspect.isclass(ann) and issubclass(ann, AbstractArray):
+                        ann.make_transparent()""", """                    if inspect.isclass(ann) and issubclass(ann, AbstractArray):
+                        setattr(ann, "_skip_instancecheck", True)""")], "C12.3")
+SEEDS["C12_name_format_changes_dims"] = ("C12", [(A, """    elif _array_name_format == "array":
+        name = type_str""", """    elif _array_name_format == "array":
+        name = type_str
+        dim_str = \"\"""")], "C12.5")
+SEEDS["C12_install_hook_purges_sys_modules"] = ("C12", [(H, """    wrapped_typechecker = Typechecker(typechecker)""", """    for _name in modules:
+        sys.modules.pop(_name, None)
+    wrapped_typechecker = Typechecker(typechecker)""")], "C12.4")
+SEEDS["C12_memoised_struct_test"] = ("C12", [(A, """def _dtype_is_numpy_struct_array(dtype):""", """@ft.lru_cache(maxsize=None)
+def _dtype_is_numpy_struct_array(dtype):""")], "C12.5")
+SEEDS["C12_pop_skipped_on_baseexception"] = ("C12", [(D, NEW_WRAPPER_TRY, """                try:
+                    out = wrapped_fn_impl(args, kwargs, bound, memos)
+                except Exception:
+                    pop_shape_memo()
+                    raise
+                pop_shape_memo()
+                return out""")], "C12.2")
+
+TWINS["C12_twin_set_inside_try"] = ("C12", [(P, FLAT_REGION, """        was_flattening = get_treeflatten_memo()
+        try:
+            set_treeflatten_memo()
+            leaves, structure = jtu.tree_flatten(obj, is_leaf=is_flatten_leaftype)
+        finally:
+            if not was_flattening:
+                clear_treeflatten_memo()
+""")])
+TWINS["C12_twin_positive_saved_test"] = ("C12", [(P, """            if not was_flattening:
+                clear_treeflatten_memo()
+""", """            if was_flattening:
+                pass
+            else:
+                clear_treeflatten_memo()
+""")])
+SEEDS["C12_guarded_label_clears_when_no_leaf"] = ("C12", [(P, """        for leaf_index, leaf in enumerate(leaves):
+            if cls.structure is None:
+                # No `?` annotations can refer to us, so leave the treepath memo alone: it
+                # may belong to a structured `PyTree[..., "T"]` that we are nested inside.
+                if not is_check_leaftype(leaf):
+                    return False
+            else:
+                set_treepath_memo(leaf_index, cls.structure)
+                try:
+                    if not is_check_leaftype(leaf):
+                        return False
+                finally:
+                    clear_treepath_memo()
+        return True
+""", """        try:
+            for leaf_index, leaf in enumerate(leaves):
+                if cls.structure is not None:
+                    set_treepath_memo(leaf_index, cls.structure)
+                if not is_check_leaftype(leaf):
+                    return False
+                if cls.structure is not None:
+                    clear_treepath_memo()
+        finally:
+            if cls.structure is not None:
+                clear_treepath_memo()
+        return True
+""")], "C12.1")
